@@ -11,11 +11,14 @@ from ufo import err_kind, rat
 ID = "C19"
 THEOREM = ("Ufo2ft.C19.C19_master / C19_blend / C19_holdsGlyph / C19_blend_two / C19_scalars1_master / C19_instance_geometry / "
            "C19_glyphset / C19_unicodes / C19_swap_ref / C19_swap_involution / C19_swap_unicodes / C19_swap_render / "
-           "C19_kern_blend / C19_holdsKern / C19_kern_round / C19_pure")
+           "C19_kern_blend / C19_holdsKern / C19_kern_round / C19_pure / C19_collect_ref")
 N = {"quick": 200, "thorough": 8000}
 RULE = ("families: 1-2 axes (axis maps, default at an end or inside), 1-6 sources on exact dyadic positions (chains of intermediate "
         "masters per axis side, corner masters on two axes), sparse layer sources and sparse fonts, glyphs empty in one master, an "
-        "extra glyph outside the default, one deliberately incompatible glyph in a fifth of the families (more/fewer points or "
+        "extra glyph outside the default, glyphs empty in every master (space, anchor-only) with per-master advances; in half "
+        "of the families the default source is NOT the first <source> (sources shuffled, or the default listed last), so "
+        "masters are met by the collecting loops before the default source (tags default-not-first, "
+        "empty-glyph-before-default[:at-that-master]); one deliberately incompatible glyph in a fifth of the families (more/fewer points or "
         "contours, component/anchor mismatches, repeated anchor names), same-key or wild kerning with kern1/kern2 groups "
         "(overlapping), six numeric info attributes (all/none/mixed), 0-2 rules with 1-2 condition sets and open bounds, "
         "substitutions to alternates/missing/identical glyphs, public.skipExportGlyphs; written to a temporary directory as UFOs + "
@@ -291,6 +294,14 @@ def _run_family(case, fam, tmp, dl, normalizeLocation, Instantiator):
             tags.append("rules")
         if any(a["map"] for a in fam["axes"]):
             tags.append("axis-map")
+        di = L.default_index(fam)
+        if di:
+            tags.append("default-not-first")
+            early = _empty_before_default(fam, di)
+            if early:
+                tags.append("empty-glyph-before-default")
+                if any(_same_loc(fam, fam["sources"][j]["loc"], iloc) for j in early):
+                    tags.append("empty-glyph-before-default:at-that-master")
         atm = any(_same_loc(fam, s["loc"], iloc) for s in fam["sources"])
         tags.append("at-master" if atm else "between")
         full = {a["name"]: a["ddef"] for a in fam["axes"]}
@@ -330,6 +341,27 @@ def _rule_active(r, loc):
         v = loc.get(c["name"])
         return v is not None and (c["min"] is None or c["min"] <= v) and (c["max"] is None or v <= c["max"])
     return any(all(cond(c) for c in cs) for cs in r["condSets"])
+
+
+def _src_glyphs(fam, s):
+    fd = fam["fonts"][s["font"]]
+    return fd["glyphs"] if s["layer"] is None else fd["layers"][s["layer"]]
+
+
+def _empty_before_default(fam, di):
+    """indices of the sources listed BEFORE the default source in which some glyph that is empty (no contours, no
+    components) in the default source is empty too, with another advance width or other anchors: the masters that
+    collect_glyph_masters must keep although it meets them before it has seen the default glyph"""
+    empty = lambda g: not g["contours"] and not g["components"]
+    dg = {g["name"]: g for g in _src_glyphs(fam, fam["sources"][di]) if empty(g)}
+    out = []
+    for j in range(di):
+        for g in _src_glyphs(fam, fam["sources"][j]):
+            d = dg.get(g["name"])
+            if d is not None and empty(g) and (g["width"], g["anchors"]) != (d["width"], d["anchors"]):
+                out.append(j)
+                break
+    return out
 
 
 def _same_loc(fam, a, b):
@@ -452,7 +484,10 @@ def shrink(case):
         for i in range(len(fam["rules"])):
             c = copy.deepcopy(case); del c["fam"]["rules"][i]; yield c
     # drop a non-default source
-    for i in range(1, len(fam["sources"])):
+    di = L.default_index(fam)
+    for i in range(len(fam["sources"])):
+        if i == di:
+            continue
         c = copy.deepcopy(case); del c["fam"]["sources"][i]
         c["exact"] = False            # the remaining positions need not be an exact chain any more
         yield c
@@ -499,8 +534,12 @@ LEVEL_TEXT = ("Proved for all inputs (Lean): an instance at a master's location 
               "involution, leaves code points alone and commutes with component rendering; kerning blend for masters storing the same "
               "pairs; kerning rounding gives a nearest integer; the glyph-mutator cache cannot change a result (history independence); "
               "and for the whole generate_instance: undoing the substitutions in force leaves every glyph satisfying the "
-              "master/blend/rounding predicate (C19_instance_geometry). Not proved (differential only): info attributes and OS/2 "
+              "master/blend/rounding predicate (C19_instance_geometry), where the masters of a glyph are the declarative list - every "
+              "source that has the glyph, minus, only if the default source's glyph is not empty, those where it is empty - which "
+              "the model's two-step collect_glyph_masters is proved to compute wherever the default source stands in the source "
+              "list (C19_collect_ref). Not proved (differential only): info attributes and OS/2 "
               "class fallbacks, kerning of masters storing different pairs, multi-axis master scalars.")
 LEVEL_NOTE = ("Trusted: Lean kernel + propext/Classical.choice/Quot.sound; hand-written model of instantiator.py and of the fontMath / "
               "varLib pieces it drives, tied to the code by differential runs (disk and memory designspaces, sequences of instances "
-              "from one Instantiator, function-level swap and scalars streams); multi-axis master scalars are measured, not modelled.")
+              "from one Instantiator, designspaces listing the default source first / in between / last, function-level swap and "
+              "scalars streams); multi-axis master scalars are measured, not modelled.")
